@@ -363,7 +363,8 @@ Theorem to_vec_bits bs n v : Forall (fun b => b < 256) bs -> to_vec bs n = Some 
   length v = N.to_nat n /\ forall i, (i < N.to_nat n)%nat -> nth_error v i = Some (bit_of bs i).
 Proof.
   intros Hbs. unfold to_vec. destruct (len bs =? bytes_num n) eqn:E; [|discriminate].
-  intros [= <-]. apply N.eqb_eq in E.
+  intros Hv. apply (f_equal (fun o => match o with Some x => x | None => v end)) in Hv. cbv beta iota in Hv. subst v.
+  apply N.eqb_eq in E.
   assert (Hn : (N.to_nat n <= 8 * length bs)%nat).
   { unfold bytes_num, len, Bitfield_BITS_IN_BYTE in E. destruct (n mod 8 =? 0) eqn:E2; lia. }
   split.
